@@ -12,13 +12,12 @@ package c14
 
 import (
 	"fmt"
-	"os"
-	"path/filepath"
 	"testing"
 	"time"
 
 	"pgregory.net/rapid"
 
+	"verifharness/internal/fakessh"
 	"verifharness/internal/hx"
 )
 
@@ -29,9 +28,14 @@ type Case struct {
 	Index  *IndexCase  `json:"index,omitempty"`
 	Script *ScriptCase `json:"script,omitempty"`
 	Proto  *ProtoCase  `json:"proto,omitempty"`
+	SSH    *SSHCase    `json:"ssh,omitempty"`
 }
 
 func genCase(t *rapid.T) Case {
+	if hx.Thorough() && fakessh.HavePull() && rapid.IntRange(0, 99).Draw(t, "ssh") == 0 {
+		sc := genSSH(t)
+		return Case{Mode: "ssh", SSH: &sc}
+	}
 	switch m := rapid.IntRange(0, 19).Draw(t, "mode"); {
 	case m < 7:
 		mc := genMatrix(t)
@@ -58,6 +62,8 @@ func run(c Case) (o hx.Outcome) {
 		o = runScript(*c.Script)
 	case c.Mode == "proto" && c.Proto != nil:
 		o = runProto(*c.Proto)
+	case c.Mode == "ssh" && c.SSH != nil:
+		o = runSSH(*c.SSH)
 	default: // a hand-edited replay file without a sub-case: nothing to run
 		o.Desc = map[string]any{"mode": c.Mode, "empty": true}
 		return o
@@ -159,20 +165,6 @@ func TestEnum(t *testing.T) {
 }
 
 // TestSSH is the place of the RemoteSSH end-to-end variant (fakessh -> `desync pull`).
-func TestSSH(t *testing.T) { sshVariant(t) }
-
-// sshVariant: thorough tier only, and only once the fake ssh exists.
-// TODO(C14/c-ssh): NewRemoteSSHStore with CASYNC_SSH_PATH=<fakessh> CASYNC_REMOTE_PATH=$VERIF_DESYNC_BIN:
-// present => data, missing => ChunkMissing, killed server => error; N sessions.
-func sshVariant(t *testing.T) {
-	if !hx.Thorough() {
-		t.Skip("thorough tier only")
-	}
-	if _, err := os.Stat(filepath.Join(hx.Root(), "harness", "internal", "fakessh")); err != nil {
-		t.Skip("internal/fakessh does not exist yet")
-	}
-	t.Skip("RemoteSSH end-to-end variant not implemented yet")
-}
 
 func TestProp(t *testing.T) { hx.Prop(t, spec) }
 
